@@ -27,6 +27,8 @@ R07.i  no for-loop variable of these modules is read after its loop (a statement
        left one indentation level too shallow sees only the last element).
 R07.j  no str-Enum value (FeatureType, ...Type) is tested by identity: plain strings
        are accepted for these enums and are equal, not identical, to the member.
+R07.k  no closure created in a loop of these modules keeps the loop variable by
+       reference (late binding) - every kept closure would see the last value.
 """
 
 from __future__ import annotations
@@ -55,6 +57,7 @@ MANIFEST = {
         " Also decided: no function of these modules accumulates into a mutable default argument."
         " Also decided: no for-loop variable of these modules is read after its loop (statement left one indentation level too shallow)."
         " Also decided: no str-Enum value is tested by identity (plain strings are accepted for these enums)."
+        " Also decided: no closure created in a loop keeps the loop variable by reference (late binding)."
     ),
     "note": (
         "User-supplied filters are outside the quantifier. The sub-list proof "
@@ -89,6 +92,11 @@ def registry(ctx, factory: FuncInfo, enum_name: str):
             return n, {k.attr: v for k, v in zip(n.keys, n.values)}
     # a module-level table the factory reads (hoisted out of the function)
     used = {n.id for n in own_nodes(factory.node) if isinstance(n, ast.Name)}
+    # ... also through a look-up function of the module the factory calls
+    for nm in list(used):
+        g = factory.module.functions.get(nm)
+        if g is not None and not isinstance(g.node, ast.Lambda) and g is not factory:
+            used |= {n.id for n in own_nodes(g.node) if isinstance(n, ast.Name)}
     for name, val in getattr(factory.module, "assigns", {}).items():
         if name in used and isinstance(val, ast.Dict) and val.keys and all(
             isinstance(k, ast.Attribute) and isinstance(k.value, ast.Name) and k.value.id == enum_name for k in val.keys
@@ -148,6 +156,9 @@ def registry(ctx, factory: FuncInfo, enum_name: str):
 
 def run(ctx):
     chk = ctx.chk
+    from .common import check_late_binding
+
+    check_late_binding(ctx, "R07.k", ("job_shop_lib.dispatching._ready_operation_filters", "job_shop_lib.dispatching._factories"), "the filter")
     from .common import check_str_enum_identity
 
     check_str_enum_identity(ctx, "R07.j", ("job_shop_lib.dispatching._ready_operation_filters", "job_shop_lib.dispatching._factories"), "the filter")
@@ -207,7 +218,10 @@ def run(ctx):
     n_paths = 0
     for key, fi in sorted(all_filters.items(), key=lambda kv: kv[1].qualname):
         params = fi.params
-        if len(params) != 2:
+        # (dispatcher, operations) plus, possibly, optional extras with defaults
+        a_ = fi.node.args
+        n_required = len(a_.posonlyargs + a_.args) - len(a_.defaults) + sum(1 for d in a_.kw_defaults if d is None)
+        if len(a_.posonlyargs + a_.args) < 2 or n_required != 2:
             raise AnalysisError(f"{fi.qualname}: filter signature is not (dispatcher, operations)")
         it = SubInterp(ctx, fi, {params[1]: ("SRC", 0)})
         res = it.run()
@@ -396,7 +410,7 @@ def run(ctx):
         chk.ok("R07.b", inner.qualname, inner.loc(), f"{len(res)} paths: fold over `{flist_name}`")
     chk.floor("R07.b", len(res), 2, "composite paths")
 
-    _after_composite(ctx, repo, chk)
+    ctx.attempt(_after_composite, ctx, repo, chk)
 
 
 def _after_composite(ctx, repo, chk):
